@@ -42,7 +42,7 @@ BASE = {"cfg": {"algo": "SHA-256", "depth": 2, "width": 2}, "contents": [{"hex":
 
 
 def examples(tier):
-    return 320 if tier == "quick" else 12000
+    return 1600 if tier == "quick" else 20000
 
 
 def has_delete(c):
